@@ -73,6 +73,11 @@ def cont_jobs(r, names, per_opt: int, modes=True):
             for mode in ("process", "thread"):
                 jobs.append({"opt": nm, "family": "many-workers", "mode": mode, "workers": 16, "cfg": {"max_cycles": 2, "population_size": min(P0, 12), "fitness_error": None},
                              "task": {"vars": fams["dim3"](), "obj": "sphere", "minmax": r.choice(["min", "max"]), "seed": r.randint(0, 10**6)}})
+        # the optional stop options left as None (accepted by the validators): the run must complete
+        if nm in names[:3] or r.random() < 0.05:
+            jobs.append({"opt": nm, "family": "none-stop-options", "cfg": {"max_cycles": 3, "population_size": P0, "fitness_error": None,
+                                                                          "early_stopping": r.choice([{"patience": None, "min_delta": 0.01}, {"patience": 2, "min_delta": None}, {"patience": None, "min_delta": None}])},
+                         "task": {"vars": fams["dim3"](), "obj": "sphere", "minmax": "min", "seed": r.randint(0, 10**6)}})
         # multi-objective (weights), both directions
         for mm in (["min", "max"] if per_opt >= 4 else [r.choice(["min", "max"])]):
             jobs.append({"opt": nm, "family": "multiobj", "cfg": {"max_cycles": r.choice([1, 3]), "population_size": P0, "fitness_error": None},
